@@ -117,7 +117,7 @@ func execReal(op string) string {
 	}()
 
 	cl := bfe_http2.NewVerifC35Writer(c1)
-	c1.SetWriteDeadline(time.Now().Add(60 * time.Second))
+	c1.SetWriteDeadline(time.Now().Add(300 * time.Second))
 	if _, err := c1.Write([]byte(bfe_http2.ClientPreface)); err != nil {
 		return "err:preface"
 	}
